@@ -124,10 +124,23 @@ def foreign_json(ctx):
         body = [("prov:collection", "ex:c"), ("prov:entity", ents if (n > 1 or ctx.bool("wrap")) else ents[0])]
         top.append(("entity", M([("ex:c", M([]))] + [(e, M([])) for e in ents])))
         top.append(("hadMember", M([("ex:hm" if ctx.bool("identified") else "_:hm", M(body))])))
+    elif shape == "membership_pair":
+        # a membership listing several entities FOLLOWED by further single-entity memberships (no state may leak)
+        n = 2 + ctx.choose("members", 2)
+        ents = ["ex:m%d" % i for i in range(n)]
+        first = ("ex:hm1", M([("prov:collection", "ex:c1"), ("prov:entity", ents)]))
+        second = ("ex:hm2", M([("prov:collection", "ex:c2"), ("prov:entity", ["ex:x"] if ctx.bool("wrap") else "ex:x")]))
+        third = ("_:hm3", M([("prov:collection", "ex:c2"), ("prov:entity", "ex:y")]))
+        order = ctx.choose("order", 3)
+        stmts = [[first, second, third], [second, first, third], [third, second, first]][order]
+        top.append(("entity", M([(e, M([])) for e in ["ex:c1", "ex:c2", "ex:x", "ex:y"] + ents])))
+        top.append(("hadMember", M(stmts)))
     elif shape == "record_array":
         # an array of record objects under one identifier (repeated identifier), 1-3 entries, symbolic values
         n = 1 + ctx.choose("copies", 3)
         objs = [M([("ex:k", _value(ctx, (0, 3, 4)[ctx.choose("sp", 3)]))]) for _ in range(n)]
+        if ctx.bool("first_empty"):
+            objs[0] = M([])   # a record without attributes followed by further records under the same identifier
         kind = ("entity", "agent", "activity")[ctx.choose("kind", 3)]
         top.append((kind, M([("ex:x", objs if (n > 1 or ctx.bool("wrap")) else objs[0])])))
     elif shape == "bundle_prefix":
@@ -186,7 +199,8 @@ def foreign_json(ctx):
     ctx.observe("content~", have)
 
 
-XML_CASES = ["subtype element", "xsi:type on element", "bundleContent with own namespaces", "plain and typed values", "default namespace names"]
+XML_CASES = ["subtype element", "xsi:type on element", "bundleContent with own namespaces", "plain and typed values", "default namespace names",
+             "namespace declared on an attribute element"]
 
 
 def foreign_xml(ctx):
@@ -220,9 +234,16 @@ def foreign_xml(ctx):
              '<ex:k xsi:type="xsd:QName">ex:q</ex:k>', '<ex:k xsi:type="xsd:anyURI">http://x/</ex:k>', '<ex:k xsi:type="xsd:boolean">true</ex:k>',
              '<ex:k xsi:type="xsd:double">1.5</ex:k>', '<ex:k xsi:type="xsd:dateTime">2020-01-02T03:04:05</ex:k>', '<ex:k/>')[ctx.choose("v", 10)]
         body = '<prov:entity prov:id="ex:x">%s</prov:entity>' % v
-    else:
+    elif case == 4:
         ns += ' xmlns="http://d/"'
         body = '<prov:entity prov:id="e1"><k>v</k><prov:type xsi:type="xsd:QName">T</prov:type></prov:entity>'
+    else:
+        # a namespace declared on the attribute element itself (new prefix, or shadowing a prefix of the root)
+        which = ctx.choose("where", 4)
+        body = ('<prov:entity prov:id="ex:x"><v:k xmlns:v="http://v/">t</v:k></prov:entity>',
+                '<prov:entity prov:id="ex:x"><ex:k xmlns:v="http://v/" xsi:type="xsd:QName">v:q</ex:k></prov:entity>',
+                '<prov:entity prov:id="ex:x"><ex:k xmlns:ex="http://shadow/" xsi:type="xsd:QName">ex:q</ex:k></prov:entity>',
+                '<prov:wasGeneratedBy><prov:entity xmlns:v="http://v/" prov:ref="v:e"/><prov:activity prov:ref="ex:a"/></prov:wasGeneratedBy>')[which]
     text = '<?xml version="1.0" encoding="UTF-8"?>\n<prov:document %s>%s</prov:document>' % (ns, body)
     ctx.observe("case", case)
     if ctx.sym:
@@ -253,7 +274,7 @@ def _json_shards(tier):
         for a in range(4):
             out.append({"shape": "value", "attr": a, "spelling": sp, "xml_ok": sp != 19 and not (a == 2 and sp not in (0, 1, 2, 10, 18))})
         out.append({"shape": "value", "attr": 4, "spelling": sp, "default": True, "xml_ok": sp != 19})
-    for sh in ("formal_wrapped", "membership", "record_array", "bundle_prefix", "two_formal_values"):
+    for sh in ("formal_wrapped", "membership", "membership_pair", "record_array", "bundle_prefix", "two_formal_values"):
         out.append({"shape": sh})
         out.append({"shape": sh, "default": True})
     return out
